@@ -12,6 +12,9 @@
 (*  body    : coordinates and '$' flags parsed from the printed body, same *)
 (*            shape as ends, with resolved (absolute) numbers              *)
 (*  wellformed : the printed text had the shape of its kind                *)
+(* hr, hc are where the host cell is at the time of printing: in the       *)
+(* "host-moved" phase rows were deleted above it after the reference was   *)
+(* stored, and a relative end resolves from the NEW position.              *)
 (***************************************************************************)
 EXTENDS Refs, Json, IOUtils, TLCExt
 Traces == ndJsonDeserialize(IOEnv.TRACE_FILE)
